@@ -8,7 +8,8 @@ def run(tier, seed):
         "claimed part: the three scanners (Wa/Wz, WAT, native assembly) driven as their callers drive them (Init, then Scan until EOF) on every input of 0..1 arbitrary bytes and every 2-byte input starting with an ASCII byte (quick), plus every other 2-byte input and every 3-byte ASCII input (thorough), both with and without an error handler / comment mode: no panic, and EOF within 2n+4 Scan calls (progress); format.File's language dispatch for 9 file names x 0..2 arbitrary content bytes with the formatters stubbed",
         "language detection and format dispatch additionally on inputs of 1024, 1025 and 4097 bytes (a body of line comments, so that all three scanners walk the whole input, ending in one arbitrary byte) under every file-name class",
         "Wa and Wz parsers (parser.ParseFile, all errors, comments) on token skeletons: every keyword and operator of the token table at top level and at statement position (quick), plus at expression position and between two operands (thorough), in both surface syntaxes, followed by one arbitrary byte: no panic, and termination within 5 million interpreter steps (a path that exceeds the budget is replayed natively under a 20 s limit and reported only if it is still running)",
-        "outside: type checker, loader, WAT and native-assembly parsers (pointer-rich, recursion), and inputs that are not of these shapes - stated as not covered, not replaced by another technique",
+        "WAT parser (parser.ParseModule) with two arbitrary bytes at each of 29 operand / declaration positions of a small module: no panic, termination within the step budget",
+        "outside: type checker, loader, native-assembly parser (pointer-rich, recursion), and inputs that are not of these shapes - stated as not covered, not replaced by another technique",
     ]
     lim = {"caselimit": "VfH_scan=%d" % ncase, "maxdecisions": 6000, "samples": 2}
     c.run_unit("internal/scanner", "scanner", opts=lim)
@@ -19,4 +20,7 @@ def run(tier, seed):
     # parsers on token skeletons (every keyword/operator x 8 positions x one arbitrary byte), with a termination budget
     c.run_unit("internal/parser", "parser", harnesses=["VfH_parse_tok"] if tier == "quick" else ["VfH_parse_tok", "VfH_parse_tok_more"],
                opts={"maxdecisions": 6000, "samples": 1, "hangsteps": 5000000, "transparent": "strconv"})
+    # WAT parser on declaration/operand skeletons with two arbitrary bytes
+    c.run_unit("internal/wat/parser", "parser", harnesses=["VfH_wat_pos"],
+               opts={"maxdecisions": 6000, "samples": 1, "hangsteps": 5000000, "transparent": "strconv", "stubstr": "fmt.Sprintf"})
     return c.finish()
